@@ -45,10 +45,15 @@ type gcCommit struct {
 }
 
 type gcIdx struct {
-	A string `json:"a"`
-	D string `json:"d"`
-	M string `json:"m"`
+	A  string `json:"a"`
+	D  string `json:"d"`
+	M  string `json:"m"`
+	U1 string `json:"u1"` // conflict stages of the unmerged path "u" ("none" = stage absent)
+	U2 string `json:"u2"`
+	U3 string `json:"u3"`
 }
+
+var noIdx = gcIdx{"none", "none", "none", "none", "none", "none"}
 
 type gcState struct {
 	Cm   []gcCommit     `json:"cm"`
@@ -332,7 +337,26 @@ func (w *gcWorld) indexOf(ix gcIdx) *index.Index {
 	if ix.M != "none" {
 		add("m", linkHash, filemode.Submodule, 0)
 	}
+	// the unmerged path: one entry per conflict stage (index order: by name, then stage)
+	for st, b := range []string{ix.U1, ix.U2, ix.U3} {
+		if b != "none" && b != "" {
+			c := blobContent(b)
+			add("u", mkObj(plumbing.BlobObject, c).Hash(), filemode.Regular, len(c))
+			idx.Entries[len(idx.Entries)-1].Stage = index.Stage(st + 1)
+		}
+	}
 	return idx
+}
+
+func idxKey(e *index.Entry) string { return fmt.Sprintf("idx %s stage %d", e.Name, e.Stage) }
+
+func sortIndex(idx *index.Index) {
+	sort.Slice(idx.Entries, func(i, j int) bool {
+		if idx.Entries[i].Name != idx.Entries[j].Name {
+			return idx.Entries[i].Name < idx.Entries[j].Name
+		}
+		return idx.Entries[i].Stage < idx.Entries[j].Stage
+	})
 }
 
 func writeFile(fs billy.Filesystem, name string, data []byte) error {
@@ -404,7 +428,7 @@ func (w *gcWorld) build(s gcState) error {
 		return err
 	}
 	w.idx = s.Idx
-	if s.Idx != (gcIdx{"none", "none", "none"}) {
+	if s.Idx != noIdx {
 		if err := st.SetIndex(w.indexOf(s.Idx)); err != nil {
 			return err
 		}
@@ -537,11 +561,47 @@ func (w *gcWorld) apply(s gcStep) error {
 			return err
 		}
 		idx.Entries = append(idx.Entries, &index.Entry{Name: "m", Hash: linkHash, Mode: filemode.Submodule})
-		sort.Slice(idx.Entries, func(i, j int) bool { return idx.Entries[i].Name < idx.Entries[j].Name })
+		sortIndex(idx)
 		if err := w.st.SetIndex(idx); err != nil {
 			return err
 		}
 		w.idx.M = "link"
+	case "conflict":
+		// what a merge that stops on a conflict leaves behind: the stage blobs are written and the path
+		// gets one index entry per stage; nothing else names the blobs
+		ix := w.idx
+		ix.U1, ix.U2, ix.U3 = rawStr(s.A), rawStr(s.B), rawStr(s.C)
+		idx, err := w.st.Index()
+		if err != nil {
+			return err
+		}
+		for _, e := range w.indexOf(gcIdx{A: "none", D: "none", M: "none", U1: ix.U1, U2: ix.U2, U3: ix.U3}).Entries {
+			if _, err := w.st.SetEncodedObject(mkObj(plumbing.BlobObject, blobContent([]string{"", ix.U1, ix.U2, ix.U3}[e.Stage]))); err != nil {
+				return err
+			}
+			idx.Entries = append(idx.Entries, e)
+		}
+		sortIndex(idx)
+		if err := w.st.SetIndex(idx); err != nil {
+			return err
+		}
+		w.idx = ix
+	case "resolve":
+		idx, err := w.st.Index()
+		if err != nil {
+			return err
+		}
+		var keep []*index.Entry
+		for _, e := range idx.Entries {
+			if e.Stage == 0 {
+				keep = append(keep, e)
+			}
+		}
+		idx.Entries = keep
+		if err := w.st.SetIndex(idx); err != nil {
+			return err
+		}
+		w.idx.U1, w.idx.U2, w.idx.U3 = "none", "none", "none"
 	case "commit":
 		extra, c := rawStr(s.A), rawStr(s.B)
 		opts := &git.CommitOptions{AllowEmptyCommits: true, Author: &gcSig, Committer: &gcSig}
@@ -814,7 +874,7 @@ func (w *gcWorld) project(s *filesystem.Storage) (map[string]string, error) {
 		return nil, err
 	}
 	for _, e := range idx.Entries {
-		out["idx "+e.Name] = e.Hash.String()
+		out[idxKey(e)] = e.Hash.String()
 	}
 	sh, err := s.Shallow()
 	if err != nil {
@@ -846,7 +906,7 @@ func (w *gcWorld) expectProjection(s gcState) map[string]string {
 		out["ref HEAD"] = "sym:" + s.Head.Sym
 	}
 	for _, e := range w.indexOf(s.Idx).Entries {
-		out["idx "+e.Name] = e.Hash.String()
+		out[idxKey(e)] = e.Hash.String()
 	}
 	for _, c := range s.Shallow {
 		out["shallow C:"+c] = "1"
